@@ -3,7 +3,7 @@
    `FUNCTION_BLOCK name <body> END_FUNCTION_BLOCK` as parse_program reads it (tokenize, insert the terminators after
    END_IF, library / function_block_declaration wrapper, function_block_body).  Executable; no proofs in this file. *)
 From Coq Require Import List NArith Bool String Arith.
-From Verif Require Import Base.Res Base.Text Gen.GenTokens Gen.GenPrec Model.Lexer Model.Literals Model.ExprParser Model.StParser.
+From Verif Require Import Base.Res Base.Text Gen.GenTokens Gen.GenPrec Model.Lexer Model.Literals Model.ExprParser Model.StParser Model.DeclParser.
 Import ListNotations.
 
 Definition binop_index (o : binop) : nat :=
@@ -45,6 +45,11 @@ Definition kind_class (k : tok_kind) : tcl :=
       | KRange => CRange
       | KColon => CColon
       | KCase => CKw KwCase | KOf => CKw KwOf | KEndCase => CKw KwEndCase
+      | KSint | KInt | KDint | KLint | KUsint | KUint | KUdint | KUlint | KReal | KLreal | KTime | KDate | KTimeOfDay | KDateAndTime
+      | KByte | KWord | KDword | KLword => CTyKw
+      | KVar => CDk DkVar | KVarInput => CDk DkVarInput | KVarOutput => CDk DkVarOutput | KVarInOut => CDk DkVarInOut
+      | KVarExternal => CDk DkVarExternal | KEndVar => CDk DkEndVar | KConstant => CDk DkConstant | KRetain => CDk DkRetain
+      | KNonRetain => CDk DkNonRetain | KREdge => CDk DkREdge | KFEdge => CDk DkFEdge
       | _ => COther
       end
   end.
@@ -101,6 +106,64 @@ Definition parse_fb_tokens (toks : list token) : outcome :=
         end
       else OScope
   | [] => OScope
+  end.
+
+(* ---- with variable declaration blocks (Model/DeclParser.v) ---- *)
+Local Open Scope string_scope.
+(* From<ElementaryTypeName> for Type: the name an elementary type keyword stands for *)
+Definition ty_name (t : token) : text :=
+  text_of_string
+    (match t_kind t with
+     | KBool => "BOOL" | KSint => "SINT" | KInt => "INT" | KDint => "DINT" | KLint => "LINT" | KUsint => "USINT" | KUint => "UINT"
+     | KUdint => "UDINT" | KUlint => "ULINT" | KReal => "REAL" | KLreal => "LREAL" | KTime => "TIME" | KDate => "DATE"
+     | KTimeOfDay => "TIME_OF_DAY" | KDateAndTime => "DATE_AND_TIME" | KByte => "BYTE" | KWord => "WORD" | KDword => "DWORD"
+     | KLword => "LWORD" | _ => ""
+     end).
+
+Inductive outcome2 := O2Parsed (ds : list ditem) (l : list stmt) | O2Rejected | O2Fuel | O2Scope.
+
+(* function_block_declaration: FUNCTION_BLOCK _ name _ (declarations ** _) _ body _ END_FUNCTION_BLOCK *)
+Definition parse_fbd_tokens (toks : list token) : outcome2 :=
+  match st_skip toks with
+  | fb :: r =>
+      if kind_eqb (t_kind fb) KFunctionBlock then
+        match st_skip r with
+        | nm :: r1 =>
+            if kind_eqb (t_kind nm) KIdentifier then
+              let r2 := st_skip r1 in
+              if in_scope token tok_class r2 then
+                let fuel := (3 * List.length toks + 8)%nat in
+                match blocks token tok_class t_text tok_num ty_name fuel [] r2 with
+                | DOk (ds, rb) =>
+                    match body token tok_class t_text tok_num op_level fuel (st_skip rb) with
+                    | Ok (l, r3) =>
+                        match st_skip r3 with
+                        | e :: r4 => if kind_eqb (t_kind e) KEndFunctionBlock
+                                     then match st_skip r4 with [] => O2Parsed ds l | _ => O2Rejected end
+                                     else O2Rejected
+                        | [] => O2Rejected
+                        end
+                    | Fail => O2Rejected
+                    | Panic => O2Rejected
+                    | OutOfFuel => O2Fuel
+                    end
+                | DFail => O2Rejected
+                | DScope => O2Scope
+                | DFuel => O2Fuel
+                end
+              else O2Scope
+            else O2Scope
+        | [] => O2Scope
+        end
+      else O2Scope
+  | [] => O2Scope
+  end.
+
+Definition parse_fbd_text (t : text) : outcome2 :=
+  let '(toks, errs) := tokenize_program t in
+  match errs with
+  | [] => parse_fbd_tokens toks
+  | _ => O2Rejected
   end.
 
 Definition parse_fb_text (t : text) : outcome :=
